@@ -16,12 +16,12 @@ import random
 #  ("field", fname | None | "@", boxed, typ)
 
 LIT_POOL = ["a", "b", "x", "(", ")", "+", "-", ",", ";", "if", "ab", "let", "é", "ß", "😀", "→", "aé", "=", "=="]
-ILIT_POOL = ["a", "Z", "select", "If", "ab", "x1"]
+ILIT_POOL = ["a", "Z", "select", "If", "ab", "x1", "_", "{", "0", "@"]
 RANGE_POOL = [("a", "z"), ("0", "9"), ("A", "F"), ("à", "ÿ"), ("a", "é"), ("!", "~"), ("α", "ω"), ("😀", "😏")]
 FIELD_NAMES = ["a", "b", "c", "d", "type", "fn", "x1"]
 WS_CHOICES = ["", "", " ", " ", "  ", "\n", "\t", " \r\n", "\x0c"]
 NEAR_WS = ["\x0b", " ", " "]
-ALPHABET = list("abxz019(),;+-= \n\t") + ["é", "ß", "😀", "→", "à", "α", "A", "Z", "F"]
+ALPHABET = list("abxz019(),;+-= \n\t_{[@`") + ["é", "ß", "😀", "→", "à", "α", "A", "Z", "F"]
 
 
 class Rule:
